@@ -66,8 +66,16 @@ def type_src(t):
     return "sa.%s(%s)" % (m.group(1), m.group(2) or "")
 
 
+def default_py(d):
+    """server default: {"kind": "str", "v": ...} -> plain string (rendered as a quoted literal);
+    {"kind": "text", "v": ...} -> sa.text(...) (number or parenthesised expression, rendered as is)"""
+    return d["v"] if d["kind"] == "str" else sa.text(d["v"])
+
+
 def col_py(c):
     kw = {}
+    if c.get("default"):
+        kw["server_default"] = default_py(c["default"])
     if c.get("pk"):
         kw["primary_key"] = True
     if "nullable" in c and not c.get("pk"):
@@ -77,6 +85,9 @@ def col_py(c):
 
 def col_src(c):
     kw = ""
+    if c.get("default"):
+        d = c["default"]
+        kw += ", server_default=%s" % (repr(d["v"]) if d["kind"] == "str" else "sa.text(%r)" % d["v"])
     if c.get("pk"):
         kw += ", primary_key=True"
     if "nullable" in c and not c.get("pk"):
